@@ -85,6 +85,48 @@ theorem lexLt_total (a b : List K) :
     (a ≠ b ∧ lexLt a b = false ∧ lexLt b a = true) :=
   lexLt_total_of a b (fun x _ y _ => tri_of_linear x y)
 
+/-- a non-negative number and a number at most -1 are not equal within an epsilon below 1 (any style) -/
+theorem eqS_opposite_false (s : Style) (a x e : K) (ha : 0 ≤ a) (hx : x ≤ -1) (he : e < 1) : eqS s a x e = false := by
+  rw [Bool.eq_false_iff, Ne, eqS_iff]
+  intro h
+  have hxa : |x| = -x := abs_of_neg (by linarith)
+  have haa : |a| = a := abs_of_nonneg ha
+  have hd : |a - x| = a - x := abs_of_pos (by linarith)
+  rw [hd] at h
+  cases s
+  · simp only [tol, hxa, haa] at h
+    have hm : (1 : K) ≤ max a (-x) := le_max_of_le_right (by linarith)
+    have hm2 : max a (-x) ≤ a - x := max_le (by linarith) (by linarith)
+    have : e * max a (-x) < 1 * max a (-x) := mul_lt_mul_of_pos_right he (by linarith)
+    linarith
+  · simp only [tol, hxa, haa] at h
+    have hm0 : (0 : K) ≤ min a (-x) := le_min ha (by linarith)
+    have hm2 : min a (-x) ≤ a := min_le_left _ _
+    have : e * min a (-x) ≤ 1 * min a (-x) := mul_le_mul_of_nonneg_right (le_of_lt he) hm0
+    linarith
+  · simp only [tol] at h
+    linarith
+
+/-- two numbers of magnitude at least 1 at distance below 1 that are not equal within epsilon: epsilon is below 1 -/
+theorem lt_one_of_not_eq_near (s : Style) (p x e : K) (hp : 1 ≤ |p|) (hx : 1 ≤ |x|) (hd : |p - x| < 1)
+    (h : eqS s p x e = false) : e < 1 := by
+  by_contra he
+  have he1 : 1 ≤ e := not_lt.mp he
+  rw [Bool.eq_false_iff, Ne, eqS_iff] at h
+  apply h
+  cases s
+  · simp only [tol]
+    have : (1 : K) ≤ e * max |p| |x| := by
+      calc (1 : K) = 1 * 1 := (one_mul 1).symm
+        _ ≤ e * max |p| |x| := mul_le_mul he1 (le_max_of_le_left hp) zero_le_one (by linarith)
+    linarith
+  · simp only [tol]
+    have : (1 : K) ≤ e * min |p| |x| := by
+      calc (1 : K) = 1 * 1 := (one_mul 1).symm
+        _ ≤ e * min |p| |x| := mul_le_mul he1 (le_min hp hx) zero_le_one (by linarith)
+    linarith
+  · simp only [tol]; linarith
+
 /-! ### rounding -/
 
 /-- `tr` is the C++ floating → integer conversion: truncation toward zero -/
